@@ -226,6 +226,28 @@ func growthForms(big string) []string {
 		"split(\"x\" * 100000000, \"\")",
 		"len(\"ab\" * " + big + ")",
 		"x = [[1] * 1000000] * 1000000",
+		// every other place that compares or writes out whole values
+		"a = 1; for 40 { a = [a, a, a] }; min(a, a)",
+		"a = 1; for 40 { a = [a, a, a] }; b = [a]; max(b, [a], b) == 1",
+		"a = 1; for 40 { a = [a, a, a] }; A = a; A = a; 1",
+		"a = 1; for 30 { a = {\"k\": [a, a], \"a\": a} }; AB = a; AB := a; 1",
+		"a = 1; for 40 { a = [a, a, a] }; a != a",
+		"a = 1; for 40 { a = [a, a, a] }; log(a)",
+		"a = 1; for 40 { a = [a, a, a] }; error(\"e\", a)",
+		"a = 1; for 40 { a = [a, a, a] }; catch(error(\"e\", a))",
+		"a = 1; for 40 { a = [a, a, a] }; len({a: 1} + {a: 2})",
+		"a = 1; for 40 { a = [a, a, a] }; m = {a: 1}; del(m[a]); len(m)",
+		"a = 1; for 40 { a = [a, a, a] }; [a] + [a] == [a, a]",
+		"a = 1; for 40 { a = [a, a, a] }; f = x => x; f(a) == f(a)",
+		"a = 1; for 40 { a = [a, a, a] }; eval(\"1\", a)",
+		"a = 1; for 40 { a = [a, a, a] }; type(a) + \"-\" + a",
+		"a = 1; for 40 { a = [a, a, a] }; \"s\" + a",
+		"a = 1; for 40 { a = [a, a, a] }; info.globals",
+		"a = 1; for 40 { a = [a, a, a] }; println(info)",
+		"a = 1; for 40 { a = [a, a, a] }; first(a) == rest(a)",
+		"a = 1; for 40 { a = [a, a, a] }; if a == a { 1 }",
+		"a = 1; for 40 { a = [a, a, a] }; for x = a { if x == a { break } }",
+		"a = 1; for 40 { a = [a, a, a] }; m = {1: a, 2: a}; m[1] < m[2]",
 	}
 }
 
@@ -251,6 +273,11 @@ func nestingForms(n, nb int) []string {
 		chain("m = {\"k\": 1}; m", ".k", "", n),
 		chain("1", " + 1", "", n),
 		chain("x = 1; x", " || x", "", n),
+		// operator chains on top of what is nested below them: the tree is as deep as the sum
+		nest("(", "1", strings.Repeat("+1", 100)+")", n),
+		nest("[", "1", strings.Repeat("*2", 50)+"]", n),
+		nest("f(", "1", ")"+strings.Repeat("-1", 100), n),
+		nest("if true {", "1", "}"+strings.Repeat("+1", 50), nb),
 	}
 }
 
@@ -285,6 +312,10 @@ func genCase(t *rapid.T) Case {
 			"func spin() { for true { x = 1 } }; spin()",
 			"f = () => { for i = " + big + " { g = () => i } }; f()",
 			"for true { println(\"xxxxxxxxxxxxxxxxxxxxxxxxxxxxxxxx\") }",
+			"m = macro(x) { for true { }; quote(1) }; m(1)",
+			"m = macro(x) { i = 0; for true { i++ }; quote(unquote(x)) }\nm(2)",
+			"m = macro() { f = () => f(); f(); quote(1) }; m()",
+			"m = macro(x) { s = \"x\"; for 64 { s = s + s }; quote(1) }; m(1)",
 		}).Draw(t, "loop")
 	case 1:
 		c.Family = "recursion"
@@ -460,6 +491,10 @@ func TestCommandLineLimits(t *testing.T) {
 		{[]string{"-no-auto", "-quiet", "-max-duration", "100ms", "spin.gr"}, true, "deadline"},
 		{[]string{"-no-auto", "-quiet", "-max-duration", "100ms", "ok.gr", "spin.gr"}, true, "deadline"},
 		{[]string{"-no-auto", "-quiet", "-max-duration", "100ms", "-c", "for true { }"}, true, "deadline"},
+		// the deadline also governs what follows an external command and what a macro body does
+		{[]string{"-no-auto", "-quiet", "-max-duration", "300ms", "-c", "run(\"true\"); for true { }"}, true, "deadline"},
+		{[]string{"-no-auto", "-quiet", "-max-duration", "300ms", "-c", "exec(\"true\"); for true { }"}, true, "deadline"},
+		{[]string{"-no-auto", "-quiet", "-max-duration", "300ms", "-c", "m = macro(x) { for true { }; quote(1) }; m(1)"}, true, "deadline"},
 	}
 	for _, r := range runs {
 		cmd := exec.Command(bin, r.args...)
